@@ -5,15 +5,17 @@ import LicenseExpr.Model.Api
 
 `dedupRef` (Model/Spec.lean) is the statement's own reference: at every AND / OR node, leaves up,
 drop each operand whose rendering repeats an earlier sibling, and replace a node left with one
-operand by it. `Faithful e`: at every node, deduplicated operands that render alike are equal —
-true of every tree one Licensing parses from text. The hypothesis is forced: for
-`AND(a[exception], a)` the source returns the single symbol `a` and the truth table changes
-(known finding K1).
+operand by it. `dedup()` *is* that function, on every tree (`C09_struct`; since the repair
+"keep the first of the expressions that render alike" — before it, the dictionary of
+`combine_expressions` kept the position of the first and the object of the last). `Faithful e`: at every
+node, deduplicated operands that render alike are equal — true of every tree one Licensing parses
+from text. For the truth table the hypothesis is forced: for `AND(a[exception], a)` the rule of the
+property itself leaves the single symbol `a` and the truth table changes (known finding K1).
 -/
 namespace LE
 
-/-- **C09 (exactly)**: on render-faithful expressions `dedup()` is the reference deduplication. -/
-theorem C09_struct (e : Expr Atom) (hf : Faithful e) : dedupE e = dedupRef e := dedupE_eq_ref e hf
+/-- **C09 (exactly)**: `dedup()` is the reference deduplication, on every expression. -/
+theorem C09_struct (e : Expr Atom) : dedupE e = dedupRef e := dedupE_eq_ref_all e
 
 /-- **C09 (order, nesting)**: what is kept at a node is a subsequence of its operands. -/
 theorem C09_order (l : List (Expr Atom)) : (eraseDupsByRender [] l).Sublist l := eraseDups_sublist [] l
@@ -27,29 +29,30 @@ theorem C09_alternatives (l : List (Expr Atom)) (x : Expr Atom) (hx : x ∈ l) :
 
 /-- **C09 (truth table)**: unchanged, on render-faithful expressions. -/
 theorem C09_truth (v : Atom → Bool) (e : Expr Atom) (hf : Faithful e) : eval v (dedupE e) = eval v e := by
-  rw [C09_struct e hf]; exact dedupRef_eval v e hf
+  rw [C09_struct e]; exact dedupRef_eval v e hf
 
 /-- **C09 (twice)**: applying the reference deduplication twice changes nothing more — for every tree … -/
 theorem C09_idem_ref (e : Expr Atom) : dedupRef (dedupRef e) = dedupRef e := dedupRef_idem e
 
-/-- … and so for `dedup()` on render-faithful expressions (whose results are render-faithful again). -/
-theorem C09_idem (e : Expr Atom) (hf : Faithful e) : dedupE (dedupE e) = dedupE e := dedupE_idem e hf
+/-- … and so for `dedup()`, for every tree. -/
+theorem C09_idem (e : Expr Atom) : dedupE (dedupE e) = dedupE e := by
+  rw [C09_struct, C09_struct]; exact dedupRef_idem e
 
 theorem C09_faithful_preserved (e : Expr Atom) (hf : Faithful e) : Faithful (dedupE e) := by
-  rw [C09_struct e hf]; exact dedupRef_faithful e hf
+  rw [C09_struct e]; exact dedupRef_faithful e hf
 
 /-- **C09 (combine)**: a sole input is returned as it is; with `unique` off every input is kept, in order -/
 theorem C09_combine_sole (op : Op) (unique : Bool) (x : Expr Atom) : combineCore op unique [x] = some x := by
-  cases unique <;> simp [combineCore, uniqByRender, firstKeys, lastWith]
+  cases unique <;> simp [combineCore, uniqByRender, uniqGo]
 
 theorem C09_combine_keep_all (op : Op) (a b : Expr Atom) (r : List (Expr Atom)) :
     combineCore op false (a :: b :: r) = some (.node op (a :: b :: r)) := by
   simp [combineCore]
 
-/-- with `unique` on and render-faithful inputs: the first occurrences, in the given order, under the operator -/
-theorem C09_combine_unique (op : Op) (l : List (Expr Atom)) (hinj : RenderInj l) :
+/-- with `unique` on: the first occurrences, in the given order, under the operator — for every list of inputs -/
+theorem C09_combine_unique (op : Op) (l : List (Expr Atom)) :
     combineCore op true l = (match eraseDupsByRender [] l with | [] => none | [x] => some x | u => some (.node op u)) := by
-  simp only [combineCore, ↓reduceIte, uniqByRender_eq_erase l hinj]
+  simp only [combineCore, ↓reduceIte, uniqByRender_eq_erase' l]
   cases eraseDupsByRender [] l with
   | nil => rfl
   | cons x xs => cases xs <;> rfl
